@@ -174,6 +174,22 @@ struct Tracked {
         if (a && b) *p = *o.p;
         return *this;
     }
+    // moves leave a recognisable value behind (like a moved-from std::string): code that reads an element after
+    // moving from it shows up as a content mismatch
+    Tracked(Tracked&& o) : p(nullptr) {
+        int v = o.alive("move-construct from") ? *o.p : -2000;
+        p = new int(v);
+        if (v != -2000) *o.p = -4000;
+        reg();
+    }
+    Tracked& operator=(Tracked&& o) {
+        bool a = alive("assign to"), b = o.alive("move-assign from");
+        if (a && b && this != &o) {
+            *p = *o.p;
+            *o.p = -4000;
+        }
+        return *this;
+    }
     ~Tracked() {
         g_tl()->dtors++;
         if (!g_tl()->live.erase(this)) {
